@@ -88,9 +88,13 @@ def search(ctx, breaks):
         cases = [ec.make_case(ctx.rng, n, P) for n, P in plan]
         try:
             res, _ = ec.run_cases("C01s%d" % k, cases, model_available=True)
-        except Exception as e:  # the model may not build
-            ctx.log("search could not evaluate the specification: %s" % str(e)[-300:])
-            break
+        except Exception as e:  # the generated model may not build: the specification alone then
+            ctx.log("search without the generated model (%s)" % str(e)[-200:].replace("\n", " "))
+            try:
+                res, _ = ec.run_cases("C01s%d" % k, cases, model_available=False)
+            except Exception as e2:  # noqa
+                ctx.log("search could not evaluate the specification: %s" % str(e2)[-300:])
+                break
         found += res["spec_failures"][:3]
         if found:
             break
